@@ -11,8 +11,58 @@ import ast
 
 from ..model import src
 from ..report import Report, key_of
+from ..terms import normalise, pretty
 from .c04 import check_registry_reuse
-from .common import TRUSTED_BASE, cfg_nodes_for, where
+from .common import TRUSTED_BASE, bound_args, cfg_nodes_for, inl, loop_runs_to_end, loop_unconditional, subst_single_assign, where
+
+
+STOP_NAMES = ('slugname', 'name_for_persistence', 'repr_name_without_namespace', 'get_name_for_persistence')
+
+
+def has_task_object(t):
+    """the term is the task object constructed from the config in _create_task: <task class>(config)"""
+    return t[0] == 'call' and t[1] == 'apply' and len(t[2]) == 2 and t[2][1] == ('p', 'config')
+
+
+def registry_key_branches(A):
+    """Terms of the registry key tested with `in` in Chain._create_task, restricted to TaskParameterConfig configs
+    (name/key properties kept as references)."""
+    fct = A.func('Chain._create_task')
+    regs = [p for p in fct.params if 'registry' in p]
+    tests = [n.left for n in A.typer.own_nodes(fct) if isinstance(n, ast.Compare) and len(n.ops) == 1 and isinstance(n.ops[0], (ast.In, ast.NotIn)) and regs and src(n.comparators[0]) == regs[0]]
+    old = A.sym.stop_at
+    A.sym.stop_at = {fi.qualname for fi in A.prog.functions.values() if fi.name in STOP_NAMES}
+    try:
+        at = A.sym.terms_at(fct, ('inst', A.cls('Chain')), tests)
+    finally:
+        A.sym.stop_at = old
+    out = []
+    memo = {}
+
+    def is_tpc(c):
+        return c[0] == 'isinst' and c[2] == ('global', 'TaskParameterConfig')
+
+    def restrict(t):
+        """the term under the assumption isinstance(config, TaskParameterConfig)"""
+        if not isinstance(t, tuple):
+            return t
+        if id(t) in memo:
+            return memo[id(t)][1]
+        if t and t[0] == 'cond' and is_tpc(t[1]):
+            r = restrict(t[2])
+        elif t and t[0] == 'cond' and t[1][0] == 'not' and is_tpc(t[1][1]):
+            r = restrict(t[3])
+        else:
+            r = tuple(restrict(x) for x in t)
+        memo[id(t)] = (t, r)
+        return r
+
+    for n in tests:
+        for t in at[id(n)]:
+            r = normalise(restrict(t))
+            if r not in out:
+                out.append(r)
+    return out
 
 
 def run(A, R: Report, thorough: bool):
@@ -29,11 +79,16 @@ def run(A, R: Report, thorough: bool):
     R.rule('R13.1', 'the registry is created once in MultiChain.__init__ and the same attribute is passed to every Chain(...); each config gets its own chain, unconditionally', floor=3)
     reg_stores = [(f, n) for f in mc.methods.values() for n in A.typer.own_nodes(f) if isinstance(n, (ast.Assign, ast.AnnAssign)) and
                   any(isinstance(t, ast.Attribute) and src(t.value) == 'self' and isinstance(getattr(n, 'value', None), (ast.Dict,)) and not n.value.keys for t in (n.targets if isinstance(n, ast.Assign) else [n.target]))]
-    ctors = [n for n in A.typer.own_nodes(fprep) if isinstance(n, ast.Call) and src(n.func) == 'Chain']
+    ctors = [n for n in inl(A, fprep) if isinstance(n, ast.Call) and src(n.func) == 'Chain']
     R.require(ctors, 'anchor: Chain(...) construction missing in MultiChain._prepare')
+    cinit0 = chain.methods.get('__init__')
+    cfgp = A.cfg(fprep)
     for c in ctors:
-        reg = next((src(kw.value) for kw in c.keywords if kw.arg == 'shared_tasks'), src(c.args[1]) if len(c.args) > 1 else None)
-        pm = next((src(kw.value) for kw in c.keywords if kw.arg == 'parameter_mode'), src(c.args[2]) if len(c.args) > 2 else None)
+        ba = bound_args(c, cinit0) or {}
+        regx = subst_single_assign(A, fprep, ba.get('shared_tasks')) if ba.get('shared_tasks') is not None else None
+        pmx = subst_single_assign(A, fprep, ba.get('parameter_mode')) if ba.get('parameter_mode') is not None else None
+        reg = src(regx) if regx is not None else None
+        pm = src(pmx) if pmx is not None else None
         attr = reg.split('.', 1)[1] if reg and reg.startswith('self.') else None
         created_once = attr is not None and sum(1 for f, n in reg_stores if any(src(t) == reg for t in (n.targets if isinstance(n, ast.Assign) else [n.target]))) == 1 and \
             all(f is finit for f, n in reg_stores if any(src(t) == reg for t in (n.targets if isinstance(n, ast.Assign) else [n.target])))
@@ -41,13 +96,19 @@ def run(A, R: Report, thorough: bool):
         R.check(created_once and not other_stores, 'R13.1', f'MultiChain._prepare: `{src(c)[:60]}`', key_of('registry', reg, created_once, len(other_stores)), f'every chain receives `{reg}` created once in __init__',
                 f'member chains do not all receive one registry object (`{reg}`): identical computations are separate objects per chain', where=where(fprep, c))
         R.check(pm == 'self.parameter_mode', 'R13.1', 'MultiChain._prepare: parameter_mode', key_of('pm', pm), 'parameter_mode forwarded', 'parameter_mode is not forwarded to the member chains', where=where(fprep, c))
-    loops = [n for n in A.typer.own_nodes(fprep) if isinstance(n, ast.For) and 'configs' in src(n.iter)]
+    loops = [n for n in inl(A, fprep) if isinstance(n, ast.For) and 'configs' in src(n.iter)]
     R.require(loops, 'anchor: loop over the configs missing in MultiChain._prepare')
     for lp in loops:
-        stores = [n for n in lp.body if isinstance(n, ast.Assign) and isinstance(n.targets[0], ast.Subscript) and src(n.targets[0].value) == 'self.chains' and isinstance(n.value, ast.Call) and src(n.value.func) == 'Chain']
-        conds = [n for n in ast.walk(lp) if isinstance(n, (ast.If, ast.Continue, ast.Break, ast.Try))]
-        arg_ok = all(n.value.args and src(n.value.args[0]) == src(lp.target) for n in stores)
-        R.check(len(stores) == 1 and not conds and arg_ok, 'R13.1', 'MultiChain._prepare: member loop', key_of('member-loop', len(stores), len(conds), arg_ok), 'one new Chain per config, unconditionally',
+        stores = []
+        for n in ast.walk(lp):
+            if isinstance(n, ast.Assign) and isinstance(n.targets[0], ast.Subscript) and src(n.targets[0].value) == 'self.chains':
+                v = subst_single_assign(A, fprep, n.value)
+                if isinstance(v, ast.Call) and src(v.func) == 'Chain':
+                    stores.append((n, v))
+        uncond = all(loop_unconditional(cfgp, lp, n) for n, v in stores) and loop_runs_to_end(lp)
+        arg_ok = all(isinstance(lp.target, ast.Name) and (bound_args(v, cinit0) or {}).get('config') is not None and src((bound_args(v, cinit0) or {}).get('config')) == lp.target.id for n, v in stores)
+        rebound = any(isinstance(x, ast.Name) and isinstance(x.ctx, ast.Store) and isinstance(lp.target, ast.Name) and x.id == lp.target.id for st in lp.body for x in ast.walk(st))
+        R.check(len(stores) == 1 and uncond and arg_ok and not rebound, 'R13.1', 'MultiChain._prepare: member loop', key_of('member-loop', len(stores), uncond, arg_ok), 'one new Chain per config, unconditionally',
                 'not every config gets its own freshly built chain (conditional / de-duplicated construction): a member can be another config\'s chain', where=where(fprep, lp))
 
     # ---- R13.2
@@ -72,20 +133,16 @@ def run(A, R: Report, thorough: bool):
     # ---- R13.3
     R.rule('R13.3', 'parameter-mode registry key is exactly (task slugname, storage key)', floor=1)
     fct = A.func('Chain._create_task')
-    cfg = A.cfg(fct)
-    keys = []
-    for n in A.typer.own_nodes(fct):
-        if isinstance(n, ast.Assign) and any(src(t) == 'key' for t in n.targets):
-            for cn in cfg_nodes_for(cfg, n):
-                if any('TaskParameterConfig' in src(a) and pol for a, pol in cfg.facts_at(cn.id)):
-                    keys.append(n)
-    if not keys:
-        R.undecided('R13.3', 'Chain._create_task', 'parameter-mode key assignment not recognised', where=where(fct))
-    for n in keys:
-        elts = [src(e) for e in n.value.elts] if isinstance(n.value, ast.Tuple) else [src(n.value)]
-        ok = sorted(elts) == sorted(['task.slugname', 'task.name_for_persistence'])
-        R.check(ok, 'R13.3', 'Chain._create_task: parameter-mode key', key_of('key', elts), 'key = (slugname, storage key)',
-                f'registry key is {elts}: anything less shares different computations, anything more (config, context, chain) splits identical computations into separate objects', where=where(fct, n))
+    branches = registry_key_branches(A)
+    if not branches:
+        R.undecided('R13.3', 'Chain._create_task', 'parameter-mode key not recognised', where=where(fct))
+    for t in branches:
+        ok = t[0] == 'tuple' and len(t[1]) == 2 and any(
+            a[0] == 'attr' and a[2] == 'slugname' and b[0] == 'ref' and b[1].endswith('.name_for_persistence') and b[2] == a[1] and has_task_object(a[1])
+            for a, b in (t[1], t[1][::-1]))
+        R.check(ok, 'R13.3', 'Chain._create_task: parameter-mode key', key_of('key', pretty(t)[:160]), 'key = (slugname, storage key) of the new task',
+                f'registry key is {pretty(t)[:200]}: anything less shares different computations, anything more (config, context, chain) splits identical computations into separate objects',
+                witness=[pretty(t)[:300]], where=where(fct))
     check_registry_reuse(A, R, 'R13.3b')
 
     # ---- R13.4
@@ -93,19 +150,32 @@ def run(A, R: Report, thorough: bool):
     ff = mc.methods.get('force')
     R.require(ff is not None, 'anchor: MultiChain.force missing')
     tparam = ff.params[1]
-    loops = [n for n in A.typer.own_nodes(ff) if isinstance(n, ast.For)]
+    kwname = ff.node.args.kwarg.arg if ff.node.args.kwarg else 'kwargs'
+    cfgf = A.cfg(ff)
+    loops = [n for n in inl(A, ff) if isinstance(n, ast.For)]
     ok = False
     why = 'no loop over the chains'
+    cforce = chain.methods.get('force')
     for lp in loops:
-        if 'self.chains' not in src(lp.iter):
+        it = src(lp.iter)
+        if 'self.chains' not in it or not isinstance(lp.target, ast.Name):
             continue
-        calls = [n for n in lp.body if isinstance(n, ast.Expr) and isinstance(n.value, ast.Call) and isinstance(n.value.func, ast.Attribute) and n.value.func.attr == 'force' and src(n.value.func.value) == src(lp.target)]
-        conds = [n for n in ast.walk(lp) if isinstance(n, (ast.If, ast.Continue, ast.Break, ast.Try))]
-        if len(calls) == 1 and not conds:
-            c = calls[0].value
-            same = c.args and src(c.args[0]) == tparam and any(kw.arg is None for kw in c.keywords)
-            reassigned = any(isinstance(n, ast.Assign) and any(src(t) == tparam for t in n.targets) for n in A.typer.own_nodes(ff))
-            ok = bool(same) and not reassigned and ('.values()' in src(lp.iter) or src(lp.iter) == 'self.chains.values()')
+        by_value = it == 'self.chains.values()'
+        by_key = it in ('self.chains', 'self.chains.keys()', 'list(self.chains)', 'sorted(self.chains)', 'list(self.chains.keys())')
+        calls = []
+        for n in ast.walk(lp):
+            if isinstance(n, ast.Call) and isinstance(n.func, ast.Attribute) and n.func.attr == 'force':
+                rcv = subst_single_assign(A, ff, n.func.value)
+                if (by_value and src(rcv) == lp.target.id) or (by_key and src(rcv) == f'self.chains[{lp.target.id}]'):
+                    calls.append(n)
+        if len(calls) == 1 and loop_unconditional(cfgf, lp, calls[0]) and loop_runs_to_end(lp):
+            c = calls[0]
+            ba = bound_args(c, cforce) or {}
+            first = ba.get(cforce.params[1]) if cforce is not None and len(cforce.params) > 1 else (c.args[0] if c.args else None)
+            same = first is not None and src(first) == tparam and '**' in ba and src(ba['**']) == kwname
+            reassigned = any(isinstance(n, ast.Name) and isinstance(n.ctx, ast.Store) and n.id in (tparam, kwname) for n in A.typer.own_nodes(ff)) or \
+                any(isinstance(n, (ast.Subscript, ast.Attribute)) and isinstance(n.ctx, (ast.Store, ast.Del)) and src(n.value) in (tparam, kwname) for n in A.typer.own_nodes(ff))
+            ok = bool(same) and not reassigned and (by_value or by_key)
             why = 'the request or its flags are changed on the way' if not ok else ''
         else:
             why = 'the call is conditional or missing'
